@@ -509,6 +509,33 @@ func S2e(tier string) *Scenario {
 	return scenFrom("S2e-batch-early-release", cfg, pre, bud, al, nil)
 }
 
+// S2m: chains — the same bid modified two and three times (price, then amount, then both), a cap
+// lowered, used and raised again, around one extension round, so that anything carried over from an
+// earlier modification or cap change (a stale reservation, a cached total) reaches a settlement.
+func S2m(tier string) *Scenario {
+	cfg := world.Config{Balances: stdBalances(), Params: params("", "1bcoin", 1)}
+	pre := []Op{
+		{Kind: "create_batch", Signer: "auc1", StartPrice: "1", MinPrice: "0.5", Sell: "10acoin", PayDenom: "bcoin", StartK: 0, EndK: 2, Sched: sched(4, 5), MaxExt: 1, Rate: "0.5"},
+		{Kind: "add_allowed", AID: 0, Bidder: "bid1", Max: "10"},
+		{Kind: "add_allowed", AID: 0, Bidder: "bid2", Max: "10"},
+	}
+	al := &Alphabet{
+		Bidders: []string{"bid1", "bid2"}, AllowBidders: []string{"bid1"},
+		UpdateCaps:  []string{"3", "8"},
+		BatchPrices: []string{"1"}, WorthAmts: []string{"4"}, ManyAmts: []string{"2"},
+		ModPrices: []string{"1", "2"}, ModAmts: []string{"4", "6"},
+		MaxK: 6, BlockStops: []int{2, 3, 5},
+	}
+	bud := Budget{"update": 2, "bid": 2, "mod": 3, "block": 3}
+	if tier == "thorough" {
+		al.ModPrices = []string{"1", "2", "3"}
+		al.ModAmts = []string{"2", "4", "6", "9"}
+		al.BlockStops = []int{2, 3, 4, 5}
+		bud = Budget{"update": 2, "bid": 3, "mod": 4, "block": 4, "tick": 1}
+	}
+	return scenFrom("S2m-batch-modification-chains", cfg, pre, bud, al, nil).tagged("ledger")
+}
+
 // withEntryIDMismatch also offers AddAllowedBidders calls whose entry carries another auction's id.
 func (s *Scenario) withEntryIDMismatch() *Scenario {
 	if s.al != nil {
